@@ -59,6 +59,17 @@ func (c03) Gen(tier string, seed int64, emit func([]Ev)) {
 					e["arg"] = []int{0, 1, 127, 128, 255, r.Intn(256)}[r.Intn(6)]
 				case x < 18:
 					e["op"] = []string{"SetTransportPrivateData", "SetAdaptationFieldExtension"}[r.Intn(2)]
+					if r.Intn(2) == 0 { // make the field present first, so that the data call is not just "absent field"
+						pre := Ev{"op": "SetHasTransportPrivateData", "arg": true}
+						if GS(e["op"]) == "SetAdaptationFieldExtension" {
+							pre["op"] = "SetHasAdaptationFieldExtension"
+						}
+						if s == 0 {
+							pre["start"] = B(p[:])
+						}
+						h = append(h, pre)
+						s++
+					}
 					k := 0
 					switch r.Intn(5) {
 					case 0:
@@ -81,6 +92,11 @@ func (c03) Gen(tier string, seed int64, emit func([]Ev)) {
 					d := make([]byte, k)
 					r.Read(d)
 					e["arg"] = B(d)
+					if r.Intn(3) == 0 {
+						// length chosen at execution time relative to the room the field has then:
+						// exactly fitting, one short, one too many
+						e["fit"] = []int{-1, 0, 0, 1}[r.Intn(4)]
+					}
 				default:
 					e["op"] = "SetAdaptationField"
 					sl := 1 + r.Intn(183)
@@ -90,7 +106,7 @@ func (c03) Gen(tier string, seed int64, emit func([]Ev)) {
 					src := c03Start(r, sl)
 					e["arg"] = B(src[:])
 				}
-				if s == 0 {
+				if len(h) == 0 {
 					e["start"] = B(p[:])
 				}
 				h = append(h, e)
@@ -98,6 +114,48 @@ func (c03) Gen(tier string, seed int64, emit func([]Ev)) {
 			emit(h)
 		}
 	}
+}
+
+// c03Room: the data length that would exactly fill the adaptation field if given to the private data
+// (tpd) or extension field now; -1 when that field is absent or the field is malformed. Generation aid only.
+func c03Room(p *packet.Packet, tpd bool) int {
+	ln, fl := int(p[4]), p[5]
+	off := 6
+	if fl&0x10 != 0 {
+		off += 6
+	}
+	if fl&0x08 != 0 {
+		off += 6
+	}
+	if fl&0x04 != 0 {
+		off++
+	}
+	tl, al := -1, -1
+	if fl&0x02 != 0 {
+		if off >= 188 {
+			return -1
+		}
+		tl = int(p[off])
+		off += 1 + tl
+	}
+	if fl&0x01 != 0 {
+		if off >= 188 {
+			return -1
+		}
+		al = int(p[off])
+		off += 1 + al
+	}
+	free := 5 + ln - off // stuffing bytes left
+	if tpd {
+		if tl < 0 {
+			return 3
+		}
+		return tl + free
+	}
+	if al < 0 {
+		return 3
+	}
+	return al + free
 }
 
 func c03Getters(p *packet.Packet) Ev {
@@ -188,10 +246,28 @@ func (c03) Exec(h []Ev) []Ev {
 				err = af.SetOPCR(UW64(e["arg"]))
 			case "SetSpliceCountdown":
 				err = af.SetSpliceCountdown(byte(GI(e["arg"])))
-			case "SetTransportPrivateData":
-				err = af.SetTransportPrivateData(GB(e["arg"]))
-			case "SetAdaptationFieldExtension":
-				err = af.SetAdaptationFieldExtension(GB(e["arg"]))
+			case "SetTransportPrivateData", "SetAdaptationFieldExtension":
+				if f, ok := e["fit"]; ok {
+					// steer the length by the current state (generation aid only; the recorded arg is what is validated)
+					n := c03Room(&p, op == "SetTransportPrivateData") + GI(f)
+					if n < 0 {
+						n = 0
+					}
+					if n > 255 {
+						n = 255
+					}
+					d := make([]byte, n)
+					for i := range d {
+						d[i] = byte(0x30 + i%64)
+					}
+					e["arg"] = B(d)
+					delete(e, "fit")
+				}
+				if op == "SetTransportPrivateData" {
+					err = af.SetTransportPrivateData(GB(e["arg"]))
+				} else {
+					err = af.SetAdaptationFieldExtension(GB(e["arg"]))
+				}
 			case "SetAdaptationField":
 				var src packet.Packet
 				copy(src[:], GB(e["arg"]))
